@@ -248,3 +248,20 @@ def fuzz(prop, seed, runs, max_len=2048, seeds_dir=None, workers=16, max_total_t
                 res["crashes"].append({"inproc": prop, "tape_hex": tape.hex(), "what": "[libFuzzer %s] %s" % (prop, fn)})
         res["log_tail"] = log[-1500:]
     return res
+
+
+def add(stats, fails, prop, seed, n_cases, max_size=100):
+    """Run an in-process property and fold its result into a check's Stats / failure list."""
+    res = run_target(prop, seed, n_cases, max_size)
+    merge_into(stats, res, "inproc:%s:" % prop)
+    for i in range(res["nontrivial"]):
+        stats.nontrivial.add(("inproc", prop, i))
+    fails.extend(res["fails"])
+    return res
+
+
+def replay_any(case, fallback):
+    """Dispatch: in-process failures carry an 'inproc' key."""
+    if case.get("inproc"):
+        return replay(case)
+    return fallback(case)
